@@ -3,6 +3,7 @@ package main
 import (
 	"fmt"
 	"math/rand"
+	"os"
 	"sync/atomic"
 	"time"
 
@@ -70,6 +71,12 @@ func runC03(ctx *Ctx, c *c03Case) {
 		}
 		eventsAtStop = atomic.LoadInt64(&rig.Events)
 		rules := c03Rules(rig, c)
+		if c.Spec.FanKind == "cmd" {
+			rules = nil
+			if c.PwmFault == "refused" {
+				_ = os.WriteFile(rig.state("set.code"), []byte("1\n"), 0644)
+			}
+		}
 		if locked {
 			driver.Rules = append(rules, driver.Rules...)
 		} else {
@@ -160,6 +167,11 @@ func runC03(ctx *Ctx, c *c03Case) {
 		refused = last.Val == 255 && (last.Err != "" || last.Action == "ignore")
 	}
 	touched := atomic.LoadInt64(&rig.Events) > 0
+	if c.Spec.FanKind == "cmd" {
+		w := rig.cmdWrites()
+		touched = true
+		refused = c.PwmFault == "refused" && len(w) > 0 && w[len(w)-1] == 255
+	}
 	ok, desc := rig.restoredOK(refused)
 	if !ok && touched {
 		ctx.Violation("fan-left-in-bad-state:"+c.class(), fmt.Sprintf("%s after Run returned (err=%v); stop at event %d of %d; case %s", desc, res.Err, eventsAtStop, atomic.LoadInt64(&rig.Events), jsonStr(c)), c)
@@ -176,6 +188,12 @@ func genC03(r *rand.Rand) *c03Case {
 	c := &c03Case{Spec: spec, ModeFault: pick(r, "ok", "ok", "refused", "ignored", "stick1"), PwmFault: pick(r, "ok", "ok", "ok", "refused")}
 	if spec.FanKind != "hwmon" || !spec.HasEnable {
 		c.ModeFault = "ok"
+	}
+	if r.Intn(12) == 0 {
+		// a cmd fan (no control mode, restore = set command); process spawns make it slow, so only time-based stops
+		c.Spec.FanKind, c.Spec.HasEnable, c.Spec.Stored, c.ModeFault = "cmd", false, true, "ok"
+		c.AfterMs = pick(r, 10, 60, 150, 400)
+		return c
 	}
 	switch r.Intn(10) {
 	case 0, 1, 2: // time based: start-up wait (40 ms), first-second delay (20 ms), ticking
